@@ -387,7 +387,17 @@ class VQESolver:
         else:
             raise TypeError("operator must be a of string, FermionOperator or QubitOperator type.")
 
-        if isinstance(operator, (str, FermionOperator)):
+        if isinstance(operator, str) and self.qubit_mapping.upper() == "HCB":
+            # Hard-core bosons: every spatial orbital is empty or doubly occupied, qubit p carries the pair occupation n_p.
+            # N = 2 * sum_p n_p and every state of the paired space is a singlet with Sz = 0. (The HCB mapping itself is only
+            # defined for spin-free operators: it would misread the spin-dependent Sz and S^2 operators.)
+            if operator == "N":
+                self.qubit_hamiltonian = QubitOperator((), float(n_active_mos))
+                for p in range(n_active_mos):
+                    self.qubit_hamiltonian += QubitOperator(((p, "Z"),), -1.)
+            else:
+                self.qubit_hamiltonian = QubitOperator((), 0.)
+        elif isinstance(operator, (str, FermionOperator)):
             if n_active_electrons is None or n_active_sos is None or spin is None:
                 # Every encoding but plain JW needs (some of) these numbers: take them from the molecule whenever there is one.
                 if self.molecule:
